@@ -9,6 +9,7 @@ Spec functions follow the property statements / the protocol comments, not the c
 from pyvc.dsl import (aes_cbc_dec, aes_cbc_enc, aes_ecb_dec, aes_ecb_enc, contract, events, fields, final, fold, implies,
                       lemma, md5, old, opaque, pkcs7, pre, same_object, sha256, xor_bytes)
 from msmart.lan import Security, _Packet, _LanProtocol, _LanProtocolV3, ProtocolError, AuthenticationError
+from contracts.frame import frame_spec
 
 LAN = "msmart.lan."
 
@@ -370,6 +371,7 @@ contract(LANC + ".send",
          params={"self": "obj:" + LANC, "data": "bytes", "retries": "int[1,8]"},
          requires=["lan_inv(self)", "len(data) <= 60000"],
          cancellation=True, rtype="list:bytes",
+         emits={"lan_send": "data", "lan_recv": "result"},
          modifies=["self._token", "self._key", "self._protocol", "self._protocol_version", "self._connection_expiration", "self._protocol.*"],
          let={"old_retries": "retries", "was_alive": "alive_spec(self)",
               "was_v3": "isinstance(self._protocol, _LanProtocolV3)",
@@ -387,6 +389,9 @@ contract(LANC + ".send",
                   "reconnects_when_not_alive": "(not was_alive) == ('connect' in PH)",
                   "handshake_before_data_when_needed": "implies(isinstance(self._protocol, _LanProtocolV3), ('handshake' in PH) == (not was_alive or not was_authenticated))",
                   "connect_precedes_handshake": "PH in (['connect', 'handshake'], ['handshake'], ['connect'], [])",
+                  # C01 glue: what goes on the wire is the V2 packet of exactly this frame and device id (V3: inside an encrypted request)
+                  "c01.packet_wraps_the_frame": "pkcs7(data) == aes_ecb_dec(md5(SIGN_KEY), final('packet')[40:-16]) and final('packet')[20:28] == self._device_id.to_bytes(8, 'little')",
+                  "c01.packet_is_what_is_written": "implies(not isinstance(self._protocol, _LanProtocolV3), events('tx')[-1] == final('packet')) and implies(isinstance(self._protocol, _LanProtocolV3), is_data_packet_for(events('tx')[-1], self._protocol, final('packet')))",
                   "data_goes_out_on_the_current_connection": "all(same_object(t, self._protocol._transport) for t in events('tx_on'))"},
          loops={"0": {"havoc": {"responses": "list:bytes"}},
                 "1": {"ghost_init": {"n": "0"}, "havoc": {"n": "int[0,8]", "responses": "list:bytes"},
@@ -450,7 +455,10 @@ contract("msmart.base_device.Device._send_command#transport",
          cancellation=True,
          modifies=["self._lan.*", "self._lan._protocol.*"],
          raises={"asyncio.CancelledError": {}},
-         ensures={"still_recoverable": "lan_inv(self._lan)"},
+         post_let={"LS": "events('lan_send')", "LR": "events('lan_recv')"},
+         ensures={"still_recoverable": "lan_inv(self._lan)",
+                  "c01.frame_handed_to_the_transport_unchanged": "len(result) == 0 or len(LS) == 1 and LS[0] == frame_spec(command._device_type, command._protocol_version, command._frame_type, bytes())",
+                  "c01.responses_returned_unchanged": "len(result) == 0 or (len(LR) == 1 and same_object(result, LR[0]))"},
          notes="C08/C09: ProtocolError and TimeoutError of the transport are turned into an empty response list")
 
 contract("msmart.base_device.Device.authenticate",
